@@ -32,6 +32,7 @@ type SpecLib struct {
 	LibDeps map[string][]string
 	Rules   []effectRule
 	Ghosts  map[string]*Sort
+	Counters map[string]bool // ghost arrays that are event counters (monotone)
 	Axioms  map[string]int // lib -> number of assert forms (trusted axioms)
 }
 
@@ -213,12 +214,20 @@ func LoadSpecLib(dir string) (*SpecLib, error) {
 					r.writes = append(r.writes, n)
 				}
 				sl.Rules = append(sl.Rules, r)
-			case "ghost":
+			case "ghost", "counter":
 				s, err := parseSortText(strings.Join(fs[2:], " "))
 				if err != nil {
 					return nil, fmt.Errorf("effects.txt:%d: %v", i+1, err)
 				}
 				sl.Ghosts[fs[1]] = s
+				if fs[0] == "counter" {
+					// an event counter: only ever incremented (effect g idx), so whatever an
+					// unverified stretch of code does to it, no entry decreases
+					if sl.Counters == nil {
+						sl.Counters = map[string]bool{}
+					}
+					sl.Counters[fs[1]] = true
+				}
 			default:
 				return nil, fmt.Errorf("effects.txt:%d: unknown directive %s", i+1, fs[0])
 			}
